@@ -90,6 +90,29 @@ Third round (other source files, table UNITS; one generated file per unit):
 Conventions (DESIGN 3): Python ints are Z; a shift count that depends on a parameter gets CPython's `ValueError: negative shift
 count` guard, a count built from object state and literals only is taken as non-negative (class invariant 0 <= prefixlen <=
 width); method parameters are ints unless declared otherwise in WHITELIST; every parameter of a module-level function is declared in FUNCS.
+SRCB (text functions: netaddr/ip/glob.py -> pysrc_glob_gen.v; class FnB, a subclass of Fn used only for the units of SRCB_UNITS,
+so the text generated for every other unit is untouched; prelude Model/SrcPreludeGlob.v):
+* Values: `addr` = an IPAddress object (version, value); `rng` = an IPRange object (version, start, end); `char` = one character;
+  lists of str.  `IPAddress(x)` of an `addr` x = x (copy constructor); IPAddress(s) / IPRange(s1, s2) / str(ip) for text are NOT
+  translated: they are the hand-model symbols py_ipaddress_of_str / py_iprange_of_strs / py_addr_str; an `addr` passed to an imported
+  function of SRCB_ADDR_AS_NET (iprange_to_cidrs: it applies IPNetwork() to its arguments) is py_net_of_addr (the /width network);
+  `x.version` = the translated IPAddress.version; `cidr[k]` (literal k, cidr an IPNetwork) = the translated IPNetwork.__getitem__
+  of the listlike unit (SRCB_IN_UNIT); an IPAddress result of a translated definition is an `addr`.
+* Text: `s.split('c')` = split, `s.split('c', 1)` = split1, `'sep'.join(l)` = join, `'c' in s` / `c in s` for a character = contains_char,
+  `'..%s..%d..' % (a, ..)` = String.append of the pieces with fmt_d for ints, str(n) = fmt_d n, int(s) = py_int_o 10 (ValueError),
+  `s1 + s2` = String.append, `n * 'c'` = py_str_times, truth of a str = py_str_nonempty; `any(<bool> for c in s)` = existsb over
+  chars s; `s[0] == 'c'` = py_str_head_is, accepted only after an operand `not s` of the same `or` (s is non-empty there);
+  `x is True` for a bool x = x.
+* Lists: `l[i]` for an int expression i = py_index (negative indices, IndexError); `a, b = <list>` = py_unpack2 (ValueError);
+  `[e for x in xs]` = map, or py_map_o when e can raise (in order, first exception wins); `f(*g(x))` for a tuple-valued g binds the
+  components; `for i in range(n)` / `range(a, b)` / `_iter_range(a, b)` whose variable is read = a loop over py_zrange a b.
+* `if A and B:` / `if A or B:` whose later operand can raise = the nested ifs Python evaluates (`if A: if B: X else: Y else: Y`).
+* `def g(..)` directly in the body of f, reading no local of f: the separate definition src_f_g (table entry "f.g"); calls below it.
+* `try: body / except E | (E1, ..): handler` (any handler other than the single `raise` / `pass` the base class reads) =
+  py_try [E..] body handler: both answer `inl <returned value>` | `inr <variables assigned and read later>` (no sum when neither
+  returns); the handler starts from the variables as they were at `try` -- a variable the body assigns is UNBOUND in the handler
+  unless every statement of the body from its first assignment on cannot raise (`l.append(<name>)`, `x = <name or literal>`);
+  break / continue inside are rejected.
 """
 import ast
 import os
@@ -234,6 +257,37 @@ KINDCLASS = {"OAddr": "IPAddress", "ONet": "IPNetwork", "ORng": "IPRange"}
 MUTATORS = ("append", "pop")
 PURE_METHODS = ("subnet", "union")      # x.subnet(..) (IPNetwork: a generator over new objects), s.union(t) (a new set): x, s unchanged
 
+# ---- SRCB: netaddr/ip/glob.py, nmap.py, rfc1924.py -- text functions, translated by class FnB (below class Fn) -----------
+# (all of this block is trusted translator input, like the tables above)
+SRCB_UNITS = [
+    ("netaddr/ip/glob.py", "pysrc_glob_gen.v", "", " Base.PyStr Model.SrcPreludeStr Model.SrcPreludeGlob",
+     [(None, "_octet_value", {"token": "str"}), (None, "valid_glob", {"ipglob": "str"}),
+      (None, "glob_to_iptuple", {"ipglob": "str"}), (None, "glob_to_iprange", {"ipglob": "str"}),
+      (None, "iprange_to_globs._iprange_to_glob", {"lb": "addr", "ub": "addr"}),
+      (None, "iprange_to_globs", {"start": "addr", "end": "addr"}),
+      (None, "glob_to_cidrs", {"ipglob": "str"}), (None, "cidr_to_glob", {"cidr": "net"})]),
+]
+UNITS += SRCB_UNITS
+FILES = FILES + tuple(u[1] for u in SRCB_UNITS)
+# the units whose functions are translated by FnB (filled after the class definition)
+UNIT_FNCLASS = {}
+# every translator by its output file (None: the first one); lets a unit use a definition of another unit over another file
+BY_OUT = {}
+# definitions a FnB unit may use from another unit: (receiver, name) -> that unit's output file
+SRCB_IN_UNIT = {("IPNetwork", "__getitem__:int"): "pysrc_listlike_gen.v"}
+# imported functions that apply IPNetwork(x) to their arguments first thing (their parameters are declared `net` in FUNCS):
+# an IPAddress object passed to them is the host network /width (SrcPreludeGlob.py_net_of_addr)
+SRCB_ADDR_AS_NET = ("netaddr.ip.iprange_to_cidrs",)
+# value types of FnB: `addr` = an IPAddress object (version, value); `rng` = an IPRange object (version, start, end);
+# `char` = one character of a str
+SRCB_VALUES = ("addr", "rng", "char")
+COQTY.update({"addr": "(Z * Z)", "rng": "(Z * Z * Z)", "char": "ascii"})
+SRCB_RESERVED = set("split split1 join contains_char fmt_d chars str_of py_index py_unpack2 py_map_o py_zrange py_zseq "
+                    "py_sorted_asc py_ins_asc py_str_nonempty py_str_head_is py_str_times py_str_list py_try "
+                    "py_ipaddress_of_str py_iprange_of_strs py_addr_str py_net_of_addr py_set_add map existsb forallb "
+                    "length ascii code chr len strip lower append py_int".split())
+PURE_METHODS = PURE_METHODS + ("split", "join")      # s.split(c) / sep.join(l): new values, s and sep unchanged
+
 
 class Untranslatable(Exception):
     pass
@@ -252,6 +306,7 @@ def bad(node, why, fn=None):
 
 def mangle(recv, name, prefix=""):
     name, _, variant = name.partition(":")          # "method:variant" = a specialisation of the method (see UNITS)
+    name = name.replace(".", "_")                    # "outer.inner" = a function defined inside `outer` (SRCB)
     return ("src_%s_%s" % (recv, name.strip("_")) if recv else "src_%s%s" % (prefix, name)) + ("_" + variant if variant else "")
 
 
@@ -340,6 +395,13 @@ def is_value(t):
 
 def parse_type(s):
     return ("list", Cell(s[5:])) if s.startswith("list ") else ("set", Cell(s[4:])) if s.startswith("set ") else s
+
+
+_srcb_is_value = is_value
+
+
+def is_value(t):     # SRCB: the value types of FnB are first-class Coq values as well
+    return t in SRCB_VALUES or _srcb_is_value(t)
 
 
 def show(t):
@@ -500,6 +562,14 @@ class Module:
 
     def function(self, name):
         """the module-level `def name`, which must be the only top-level binding of that name"""
+        if "." in name:                                  # SRCB: "outer.inner" = the one `def inner` in the body of `outer`
+            outer, _, inner = name.rpartition(".")
+            g = self.function(outer)
+            binds = [n for n in ast.walk(g) if n is not g and ((isinstance(n, (ast.FunctionDef, ast.ClassDef)) and n.name == inner)
+                     or (isinstance(n, ast.Name) and n.id == inner and isinstance(n.ctx, ast.Store)))]
+            if len(binds) != 1 or binds[0] not in g.body or not isinstance(binds[0], ast.FunctionDef) or binds[0].decorator_list:
+                bad(binds[-1] if binds else g, "%s is not bound exactly once, by a plain def directly in the body of %s" % (inner, outer))
+            return binds[0]
         binds = [n for st in self.tree.body
                  for n in ([st] if isinstance(st, (ast.FunctionDef, ast.ClassDef)) else ast.walk(st))
                  if (isinstance(n, (ast.FunctionDef, ast.ClassDef)) and n.name == name)
@@ -1934,6 +2004,493 @@ class Fn:
             self.render(self.ir, "  ", self.outcome, self.optional))
 
 
+# ---- SRCB: text functions (netaddr/ip/glob.py, nmap.py, rfc1924.py).  A subclass, so that nothing changes for the other units.
+class FnB(Fn):
+    """Fn plus the constructs of the text functions (see "SRCB" at the end of the module docstring); used for UNIT_FNCLASS units"""
+
+    def __init__(self, tr, recv, name, ptypes):
+        self.nonempty, self.localfns, self.rangeloops = [], {}, {}
+        Fn.__init__(self, tr, recv, name, ptypes)
+
+    def coqname(self, node, name):
+        if name in SRCB_RESERVED:
+            if self.used.setdefault(name + "_", name) != name:
+                bad(node, "identifier clash on %s_" % name)
+            return name + "_"
+        return Fn.coqname(self, node, name)
+
+    def typeof(self, node, env):
+        """the type of an expression, without keeping anything of its translation"""
+        snap, nfn = self.snapshot(), len(self.lrets)
+        try:
+            r = self.rhs(node, env)
+        finally:
+            self.restore(snap)
+            del self.lrets[nfn:]
+        return r[1] if r[0] == "out" else r[0]
+
+    @staticmethod
+    def charlit(node, what="character"):
+        """Coq literal of a one-character printable ASCII str constant"""
+        if not (isinstance(node, ast.Constant) and isinstance(node.value, str) and len(node.value) == 1 and 32 <= ord(node.value) < 127):
+            bad(node, "%s other than a one-character printable ASCII literal" % what)
+        return '"%s"%%char' % node.value.replace('"', '""')
+
+    @staticmethod
+    def strlit(text):
+        return '"%s"%%string' % text.replace('"', '""')
+
+    # ---- calls of definitions of other units; IPAddress objects passed where the callee applies IPNetwork() to its argument
+    def generated(self, node, recv, name, state, args):
+        if recv is None and self.mod.imports.get(name) in SRCB_ADDR_AS_NET:
+            args = [("net", "(py_net_of_addr %s)" % t) if ty == "addr" else (ty, t) for ty, t in args]
+        t = BY_OUT.get(SRCB_IN_UNIT.get((recv, name), ""))
+        if t is None or t is self.tr:
+            return Fn.generated(self, node, recv, name, state, args)
+        saved, self.tr = self.tr, t
+        try:
+            return Fn.generated(self, node, recv, name, state, args)
+        finally:
+            self.tr = saved
+
+    # ---- expressions
+    def rhs(self, node, env):
+        r = self.rhs_b(node, env)
+        if r is None:
+            r = Fn.rhs(self, node, env)
+        if r[0] == "out" and r[1] == "obj":          # an IPAddress object made by a translated definition: a first-class value here
+            r = ("out", "addr", r[2])
+        return r
+
+    def bool_(self, node, env):
+        if isinstance(node, ast.Name) and env.get(node.id, ("",))[0] == "str":
+            return "(py_str_nonempty %s)" % env[node.id][1]                 # truth value of a str
+        return Fn.bool_(self, node, env)
+
+    def is_not_name(self, node, env):
+        """`not s` for a str-valued name s -> s, else None"""
+        if (isinstance(node, ast.UnaryOp) and isinstance(node.op, ast.Not) and isinstance(node.operand, ast.Name)
+                and env.get(node.operand.id, ("",))[0] == "str"):
+            return node.operand.id
+        return None
+
+    def rhs_b(self, node, env):
+        if isinstance(node, ast.BoolOp):
+            # as Fn.rhs, and: in `not s or B or C`, B and C are evaluated only for a non-empty s (s[0] is defined there)
+            depth = len(self.nonempty)
+            first = self.bool_(node.values[0], env)
+            self.nohoist += 1
+            rest, prev = [], node.values[0]
+            try:
+                for x in node.values[1:]:
+                    if isinstance(node.op, ast.Or) and self.is_not_name(prev, env):
+                        self.nonempty.append(self.is_not_name(prev, env))
+                    rest.append(self.bool_(x, env))
+                    prev = x
+            finally:
+                self.nohoist -= 1
+                del self.nonempty[depth:]
+            self.size += 1
+            return ("bool", "(%s)" % (" && " if isinstance(node.op, ast.And) else " || ").join([first] + rest))
+        if isinstance(node, ast.Compare) and len(node.ops) == 1:
+            op, a, b = node.ops[0], node.left, node.comparators[0]
+            if isinstance(op, ast.Is) and isinstance(b, ast.Constant) and b.value is True and self.typeof(a, env) == "bool":
+                return ("bool", self.bool_(a, env))                          # `x is True` for a bool x
+            if isinstance(op, (ast.In, ast.NotIn)):
+                neg = "(negb %s)" if isinstance(op, ast.NotIn) else "%s"
+                if isinstance(a, ast.Constant) and isinstance(a.value, str):
+                    ty, t = self.ex(b, env)                                  # 'c' in s
+                    if ty != "str":
+                        bad(node, "'c' in %s" % show(ty))
+                    return ("bool", neg % ("(contains_char %s %s)" % (self.charlit(a, "substring test"), t)))
+                if isinstance(a, ast.Name) and env.get(a.id, ("",))[0] == "char":
+                    ty, t = self.ex(b, env)                                  # c in s for a character c
+                    if ty != "str":
+                        bad(node, "<character> in %s" % show(ty))
+                    return ("bool", neg % ("(contains_char %s %s)" % (env[a.id][1], t)))
+            if (isinstance(op, (ast.Eq, ast.NotEq)) and isinstance(a, ast.Subscript) and isinstance(a.value, ast.Name)
+                    and env.get(a.value.id, ("",))[0] == "str" and const_int(a.slice) == 0):
+                if a.value.id not in self.nonempty:                          # s[0] == 'c'
+                    bad(node, "s[0] where s is not known to be non-empty (no earlier operand `not s` of the same `or`)")
+                t = "(py_str_head_is %s %s)" % (self.charlit(b), env[a.value.id][1])
+                return ("bool", t if isinstance(op, ast.Eq) else "(negb %s)" % t)
+        if isinstance(node, ast.BinOp) and isinstance(node.op, ast.Mod) and isinstance(node.left, ast.Constant) and isinstance(node.left.value, str):
+            return self.format_(node, env)
+        if isinstance(node, ast.BinOp) and isinstance(node.op, (ast.Add, ast.Mult)):
+            ta, tb = self.typeof(node.left, env), self.typeof(node.right, env)
+            if isinstance(node.op, ast.Add) and ta == "str" and tb == "str":
+                (_, a), (_, b) = self.ex(node.left, env), self.ex(node.right, env)
+                return ("str", "(String.append %s %s)" % (a, b))
+            if isinstance(node.op, ast.Mult) and ta == "int" and tb == "str":
+                return ("str", "(py_str_times %s %s)" % (self.int_(node.left, env), self.charlit(node.right, "repeated string")))
+        if (isinstance(node, ast.Attribute) and isinstance(node.value, ast.Name) and env.get(node.value.id, ("",))[0] == "addr"
+                and node.attr == "version"):
+            x = env[node.value.id][1]                                        # the translated IPAddress.version
+            return self.generated(node, "IPAddress", "version", "(fst %s) (width (fst %s)) (snd %s)" % (x, x, x), [])
+        return None
+
+    def format_(self, node, env):
+        """'..%s..%d..' % (a, b): %s / %d of an int = its decimal text (fmt_d), %s of a str = the str"""
+        parts = re.split(r"(%.)", node.left.value)
+        args = list(node.right.elts) if isinstance(node.right, ast.Tuple) else [node.right]
+        out = []
+        for p in parts:
+            if p == "%%":
+                out.append(self.strlit("%"))
+            elif p in ("%s", "%d"):
+                if not args:
+                    bad(node, "format string with more specifiers than arguments")
+                ty, t = self.ex(args.pop(0), env)
+                if ty == "int":
+                    out.append("(fmt_d %s)" % t)
+                elif ty == "str" and p == "%s":
+                    out.append(t)
+                else:
+                    bad(node, "%s of %s" % (p, show(ty)))
+            elif p.startswith("%") and len(p) == 2:
+                bad(node, "format specifier %s" % p)
+            elif p:
+                if not all(32 <= ord(c) < 127 for c in p):
+                    bad(node, "format string with non-ASCII text")
+                out.append(self.strlit(p))
+        if args:
+            bad(node, "format string with fewer specifiers than arguments")
+        term = out[-1] if out else self.strlit("")
+        for x in reversed(out[:-1]):
+            term = "(String.append %s %s)" % (x, term)
+        return ("str", term)
+
+    def subscript(self, node, env):
+        sl = node.slice
+        if not isinstance(sl, ast.Slice):
+            vty = self.typeof(node.value, env)
+            if is_list(vty):                                                 # l[i]: IndexError modelled (py_index)
+                ty, t = self.ex(node.value, env)
+                elem = ty[1].find().t
+                if elem is None:
+                    bad(node, "subscript of a list whose element type is not known yet")
+                return ("out", elem, "(py_index %s %s)" % (t, self.int_(sl, env)))
+            if vty == "net" and const_int(sl) is not None:                   # cidr[k]: the translated IPNetwork.__getitem__ (int)
+                _, t = self.ex(node.value, env)
+                return self.generated(node, "IPNetwork", "__getitem__:int", "(nver %s) (width (nver %s)) (nval %s) (nplen %s)" % (t, t, t, t),
+                                      [("int", "%d" % const_int(sl) if const_int(sl) >= 0 else "(%d)" % const_int(sl))])
+        return Fn.subscript(self, node, env)
+
+    def listcomp(self, node, env):
+        """[e for x in xs] -> map (fun x => e) xs, or py_map_o (fun x => <e in outcome>) xs when e can raise (in order, first wins)"""
+        g = node.generators
+        if not (len(g) == 1 and not g[0].ifs and not g[0].is_async and isinstance(g[0].target, ast.Name) and g[0].target.id not in env):
+            return Fn.listcomp(self, node, env)
+        ty, t = self.listexpr(g[0].iter, env)
+        elem = ty[1].find().t if is_list(ty) else None
+        if elem is None:
+            bad(node, "comprehension over %s" % show(ty))
+        x = g[0].target.id
+        if x == "_":
+            cn, lenv = self.fresh(), dict(env)
+            lenv["_"] = (elem, cn)
+        else:
+            cn, lenv = self.bind_local(g[0].target, x, elem, env, g[0].iter)
+        saved, self.pre, nh, self.nohoist = self.pre, [], self.nohoist, 0
+        try:
+            r = self.rhs(node.elt, lenv)
+            inner = self.pre
+        finally:
+            self.pre, self.nohoist = saved, nh
+        kind = r[1] if r[0] == "out" else r[0]
+        if not is_value(kind):
+            bad(node, "comprehension element of kind %s" % show(kind))
+        if r[0] != "out" and not inner:
+            return (("list", Cell(kind)), "(map (fun %s => %s) %s)" % (cn, r[1], t))
+        ir = self.wrap(inner, ("ret", kind, r[2] if r[0] == "out" else r[1], r[0] == "out"))
+        return ("out", ("list", Cell(kind)), "(py_map_o (fun %s => %s) %s)" % (cn, self.render(ir, "      ", True), t))
+
+    def call(self, node, env):
+        r = self.call_b(node, env)
+        return r if r is not None else Fn.call(self, node, env)
+
+    def call_b(self, node, env):
+        f = node.func
+        if (isinstance(f, ast.Name) and len(node.args) == 1 and isinstance(node.args[0], ast.Starred) and not node.keywords
+                and f.id not in env and self.tr.owner_of(f.id) is not None):
+            r = self.rhs(node.args[0].value, env)                    # f(*g(x)): the components of g's tuple are f's arguments
+            ty = r[1] if r[0] == "out" else r[0]
+            if not (isinstance(ty, tuple) and ty[0] == "tup"):
+                bad(node, "f(*e) for e of kind %s" % show(ty))
+            hs = [self.fresh() for _ in ty[1]]
+            self.hoist(node, ("bind", pattern(hs), r[2] if r[0] == "out" else "(Ok %s)" % r[1]))
+            return self.generated(node, None, f.id, "", list(zip(ty[1], hs)))
+        if isinstance(f, ast.Attribute) and f.attr == "split" and not node.keywords and len(node.args) in (1, 2) and not (
+                isinstance(f.value, ast.Name) and f.value.id not in env):
+            if len(node.args) == 2 and const_int(node.args[1]) != 1:
+                bad(node, "s.split(c, n) with n other than the literal 1")
+            ty, t = self.ex(f.value, env)                                    # s.split('c') / s.split('c', 1)
+            if ty != "str":
+                bad(node, "split() on %s" % show(ty))
+            return (("list", Cell("str")), "(%s %s %s)" % ("split" if len(node.args) == 1 else "split1", self.charlit(node.args[0], "separator"), t))
+        if (isinstance(f, ast.Attribute) and f.attr == "join" and isinstance(f.value, ast.Constant) and isinstance(f.value.value, str)
+                and all(32 <= ord(c) < 127 for c in f.value.value) and len(node.args) == 1 and not node.keywords):
+            ty, t = self.listexpr(node.args[0], env)                         # 'sep'.join(l)
+            if not (is_list(ty) and ty[1].find().t == "str"):
+                bad(node, "join() of %s" % show(ty))
+            return ("str", "(join %s %s)" % (self.strlit(f.value.value), t))
+        if self.builtin_call(node, "int", env, 1) or self.builtin_call(node, "str", env, 1):
+            ty = self.typeof(node.args[0], env)
+            if f.id == "int" and ty == "str":
+                return ("out", "int", "(py_int_o 10 %s)" % self.ex(node.args[0], env)[1])      # int(s): ValueError
+            if f.id == "int" and ty == "addr":
+                x = self.ex(node.args[0], env)[1]
+                return self.generated(node, "IPAddress", "__int__", "(fst %s) (width (fst %s)) (snd %s)" % (x, x, x), [])
+            if f.id == "str" and ty == "int":
+                return ("str", "(fmt_d %s)" % self.int_(node.args[0], env))                   # str(n) = '%d' % n
+            if f.id == "str" and ty == "str":
+                return self.ex(node.args[0], env)
+            if f.id == "str" and ty == "addr":
+                return ("out", "str", "(py_addr_str %s)" % self.ex(node.args[0], env)[1])      # str(ip): hand model (SrcPreludeGlob)
+            if f.id == "str":
+                bad(node, "str() of %s" % show(ty))
+        if self.builtin_call(node, "any", env, 1) and isinstance(node.args[0], ast.GeneratorExp):
+            g = node.args[0].generators                                      # any(<bool> for c in s) over the characters of a str
+            if not (len(g) == 1 and not g[0].ifs and not g[0].is_async and isinstance(g[0].target, ast.Name) and g[0].target.id not in env):
+                bad(node, "any() over something other than one plain generator with a fresh variable")
+            ty, t = self.ex(g[0].iter, env)
+            if ty != "str":
+                bad(node, "any() over %s" % show(ty))
+            cn, lenv = self.bind_local(g[0].target, g[0].target.id, "char", env, g[0].iter)
+            self.nohoist += 1
+            try:
+                c = self.bool_(node.args[0].elt, lenv)
+            finally:
+                self.nohoist -= 1
+            return ("bool", "(existsb (fun %s => %s) (chars %s))" % (cn, c, t))
+        if isinstance(f, ast.Name) and f.id == "__srcb_range" and not node.keywords and len(node.args) in (1, 2):
+            a = [self.int_(x, env) for x in node.args]                       # (made by loop() from range(..) / _iter_range(..))
+            return (("list", Cell("int")), "(py_zrange %s %s)" % (("0", a[0]) if len(a) == 1 else (a[0], a[1])))
+        if isinstance(f, ast.Name) and f.id in self.localfns and f.id not in env:
+            if node.keywords or node.lineno <= self.localfns[f.id][1]:
+                bad(node, "call of the local function %s with keywords, or before its definition" % f.id)
+            return self.generated(node, None, self.localfns[f.id][0], "", [self.ex(x, env) for x in node.args])
+        if (isinstance(f, ast.Name) and f.id in ("IPAddress", "IPRange") and f.id not in env and not node.keywords
+                and self.mod.imports.get(f.id) == "netaddr.ip." + f.id):
+            tys = [self.typeof(x, env) for x in node.args]
+            if f.id == "IPAddress" and tys == ["addr"]:
+                return self.ex(node.args[0], env)                            # IPAddress(ip): the copy constructor = the same value
+            if f.id == "IPAddress" and tys == ["str"]:                       # IPAddress(s): the parser, hand model (SrcPreludeGlob)
+                return ("out", "addr", "(py_ipaddress_of_str %s)" % self.ex(node.args[0], env)[1])
+            if f.id == "IPRange" and tys == ["str", "str"]:
+                return ("out", "rng", "(py_iprange_of_strs %s %s)" % (self.ex(node.args[0], env)[1], self.ex(node.args[1], env)[1]))
+            if f.id == "IPRange" or "str" in tys or "addr" in tys:
+                bad(node, "%s(%s)" % (f.id, ", ".join(show(x) for x in tys)))
+        return None
+
+    # ---- statements
+    def assign(self, s, env, go):
+        tgt = s.targets[0] if isinstance(s, ast.Assign) and len(s.targets) == 1 else None
+        if isinstance(tgt, ast.Tuple) and len(tgt.elts) == 2 and all(isinstance(x, ast.Name) and x.id != "_" for x in tgt.elts):
+            ty = self.typeof(s.value, env)
+            if is_list(ty):                                                  # a, b = <list>: ValueError unless it has two elements
+                r = self.rhs(s.value, env)
+                pre = self.take_pre()
+                elem = (r[1] if r[0] == "out" else r[0])[1].find().t
+                if elem is None:
+                    bad(s, "unpacking of a list whose element type is not known")
+                names = []
+                for x in tgt.elts:
+                    cn, env = self.bind_local(x, x.id, elem, env, s.value)
+                    names.append(cn)
+                if r[0] == "out":
+                    h = self.fresh()
+                    return self.wrap(pre, ("bind", h, r[2], ("bind", pattern(names), "(py_unpack2 %s)" % h, go(env))))
+                return self.wrap(pre, ("bind", pattern(names), "(py_unpack2 %s)" % r[1], go(env)))
+        return Fn.assign(self, s, env, go)
+
+    def block(self, stmts, env, k, after):
+        if stmts and isinstance(stmts[0], ast.FunctionDef):
+            return self.localdef(stmts[0], list(stmts[1:]), env, k, after)
+        if stmts and isinstance(stmts[0], ast.Try) and self.is_try_b(stmts[0]):
+            return self.try_b(stmts[0], list(stmts[1:]), env, k, after)
+        return Fn.block(self, stmts, env, k, after)
+
+    def localdef(self, s, rest, env, k, after):
+        """`def g(..): ..` directly in the body of f, with no free variable that is a local of f: the definition
+        src_f_g (entry "f.g" of the unit's table gives its parameter types); g(..) below it calls that definition"""
+        key = "%s.%s" % (self.name, s.name)
+        if s not in self.f.body or s.decorator_list or not any(w[:2] == (None, key) for w in self.tr.specs):
+            bad(s, "local function %s: not directly in the body of %s, decorated, or without an entry %s in the unit's table" % (s.name, self.name, key))
+        outer = {a.arg for a in self.f.args.args} | {n.id for st in self.f.body if st is not s for n in ast.walk(st)
+                                                      if isinstance(n, ast.Name) and isinstance(n.ctx, ast.Store)}
+        if any(isinstance(n, ast.Name) and n.id in outer | {s.name} and isinstance(n.ctx, ast.Load) for n in ast.walk(s)) or s.name in outer or any(
+                isinstance(n, (ast.Global, ast.Nonlocal, ast.Lambda, ast.Yield, ast.YieldFrom)) or (isinstance(n, ast.FunctionDef) and n is not s)
+                for n in ast.walk(s)):
+            bad(s, "local function %s reads a local of %s (a closure), is rebound, or is not a plain function" % (s.name, self.name))
+        self.localfns[s.name] = (key, s.end_lineno)
+        return self.block(rest, env, k, after)
+
+    @staticmethod
+    def exc_names(h):
+        t = h.type
+        names = [t] if isinstance(t, ast.Name) else list(t.elts) if isinstance(t, ast.Tuple) else []
+        return [n.id for n in names if isinstance(n, ast.Name)] if names and all(isinstance(n, ast.Name) for n in names) else None
+
+    def is_try_b(self, s):
+        """try: body / except E | (E1, E2, ..): handler -- every form the base class does not read"""
+        if len(s.handlers) != 1 or s.orelse or s.finalbody or self.exc_names(s.handlers[0]) is None:
+            return False
+        h = s.handlers[0]
+        if any(e not in EXN for e in self.exc_names(h)):
+            return False
+        if isinstance(h.type, ast.Name) and len(h.body) == 1 and isinstance(h.body[0], ast.Raise):
+            return False                                       # base: py_except
+        if isinstance(h.type, ast.Name) and len(h.body) == 1 and isinstance(h.body[0], ast.Pass):
+            return False                                       # base: py_except_pass
+        return True
+
+    @staticmethod
+    def cannot_raise(st):
+        """`l.append(<name or literal>)` / `x = <name or literal>`"""
+        simple = lambda e: isinstance(e, (ast.Name, ast.Constant))
+        if isinstance(st, ast.Expr) and isinstance(st.value, ast.Call) and isinstance(st.value.func, ast.Attribute):
+            c = st.value
+            return c.func.attr == "append" and isinstance(c.func.value, ast.Name) and len(c.args) == 1 and not c.keywords and simple(c.args[0])
+        return isinstance(st, ast.Assign) and len(st.targets) == 1 and isinstance(st.targets[0], ast.Name) and simple(st.value)
+
+    def try_b(self, s, rest, env, k, after):
+        """try: body / except (E1, ..): handler  ->  do h <- py_try [E1; ..] (body) (handler); match h with inl r => return r |
+        inr <variables> => rest end  (without the match when neither returns).  Body and handler answer inl <returned value> or
+        inr <the variables assigned in them and read later>.  The handler starts from the variables as they were at `try`: a
+        variable the body assigns is unbound in the handler unless every statement of the body from its first assignment on is
+        one that cannot raise (cannot_raise)."""
+        h = s.handlers[0]
+        excs = self.exc_names(h)
+        if env["@mut"] or any(e in env or (self.mod.toplevel(e) and e not in self.mod.imports) for e in excs):
+            bad(s, "try after a state assignment, or a rebound exception class")
+        if any(isinstance(n, (ast.Break, ast.Continue)) for st in s.body + h.body for n in ast.walk(st)):
+            bad(s, "break / continue inside try")
+        if h.name and any(isinstance(n, ast.Name) and n.id == h.name for st in h.body + rest + after for n in ast.walk(st)):
+            bad(s, "exception variable %s is used" % h.name)
+        has_ret = any(isinstance(n, ast.Return) for st in s.body + h.body for n in ast.walk(st))
+        if has_ret and env["@break"] is not None and not env["@lret"]:
+            bad(s, "return inside a nested loop")
+        later = loaded_names(rest + after)
+        names = in_order([(i, 0, x) for i, x in enumerate(assigned_names(s.body) + assigned_names(h.body))])
+        unsafe = set()
+        for i, st in enumerate(s.body):
+            if not all(self.cannot_raise(x) for x in s.body[i:]):
+                unsafe |= set(assigned_names([st]))
+        nl = len(self.lrets)
+        ends = []
+
+        def end(e):
+            ends.append(e)
+            return ("jret", e)
+
+        def no(e):
+            bad(s, "break / continue inside try")
+        benv = dict(env)
+        if has_ret:
+            benv["@break"], benv["@continue"], benv["@lret"] = no, no, True      # `return` inside: answers inl
+        body = self.block(s.body, benv, end, rest + after)
+        henv = {key: val for key, val in benv.items() if key not in unsafe}
+        hand = self.block(h.body, henv, end, rest + after)
+        exported = [x for x in names if x in later and ends and all(x in e and is_value(e[x][0]) for e in ends)]
+        for key, val in env.items():                # compile-time bindings must come out unchanged, or be dead
+            if not key.startswith("@") and key not in exported and not is_value(val[0]) and any(e.get(key) != val for e in ends):
+                if key in later:
+                    bad(s, "%s is rebound inside try to something that is no Coq value and read afterwards" % key)
+        env = dict(env)
+        for x in names:
+            env.pop(x, None)
+        cns = []
+        for x in exported:
+            for e in ends[1:]:
+                unify(s, e[x][0], ends[0][x][0], "ends of the try statement")
+            cn = self.coqname(s, x)
+            cns.append(cn)
+            env[x] = (ends[0][x][0], cn)
+        env["@taint"] = frozenset().union(env["@taint"], *[e["@taint"] for e in ends]) - (set(names) - set(exported))
+
+        def close(ir):
+            if ir[0] == "jret" and isinstance(ir[1], dict):
+                t = tuple_term([ir[1][x][1] for x in exported])
+                return ("jret", "(inr %s)" % t if has_ret else t)
+            return tuple(close(x) if isinstance(x, tuple) and x and isinstance(x[0], str) else
+                         [(kd, ns, close(sub)) for kd, ns, sub in x] if isinstance(x, list) else x for x in ir)
+        hn = rn = retleaf = None
+        if has_ret:
+            kinds = self.lrets[nl:]
+            if not kinds:
+                bad(s, "try with a return that is never reached")
+            for kd in kinds[1:]:
+                unify(s, kd, kinds[0], "return values")
+            hn, rn = self.fresh(), self.fresh()
+            retleaf = self.leaf(env, kinds[0], rn)
+        return ("tryb", tuple(excs), close(body), close(hand), hn, rn, pattern(cns), retleaf, self.block(rest, env, k, after))
+
+    def if_(self, s, rest, env, k, after):
+        """as Fn.if_; `if A and B: X else: Y` whose B can raise is read as `if A: (if B: X else: Y) else: Y` (same for `or`)"""
+        snap, nl = self.snapshot(), len(self.lrets)
+        try:
+            return Fn.if_(self, s, rest, env, k, after)
+        except Untranslatable as e:
+            if "can raise under and/or" not in str(e) or not isinstance(s.test, ast.BoolOp):
+                raise
+        self.restore(snap)
+        del self.lrets[nl:]
+        a, b = s.test.values[0], (s.test.values[1] if len(s.test.values) == 2 else ast.copy_location(
+            ast.BoolOp(op=s.test.op, values=s.test.values[1:]), s.test))
+        mk = lambda test, body, orelse: ast.copy_location(ast.If(test=test, body=body, orelse=orelse), s)
+        if isinstance(s.test.op, ast.And):
+            s2 = mk(a, [mk(b, s.body, s.orelse)], s.orelse)
+        else:
+            s2 = mk(a, s.body, [mk(b, s.body, s.orelse)])
+        return self.if_(s2, rest, env, k, after)
+
+    def loop(self, s, rest, env, k, after):
+        """as Fn.loop; `for i in range(n)` / `range(a, b)` / `_iter_range(a, b)` whose variable IS read runs over the list
+        py_zrange a b (the bounds are evaluated once, before the loop)"""
+        if isinstance(s, ast.For) and isinstance(s.target, ast.Name) and isinstance(s.iter, ast.Call) and isinstance(s.iter.func, ast.Name):
+            fname = s.iter.func.id
+            isrange = (fname == "range" and self.builtin_call(s.iter, "range", env, len(s.iter.args))) or (
+                fname == "_iter_range" and fname not in env and not s.iter.keywords
+                and self.mod.imports.get("_iter_range") == "netaddr.compat._iter_range" and compat_ok("_iter_range"))
+            if isrange and len(s.iter.args) in (1, 2) and s.target.id in loaded_names(s.body):
+                if id(s) not in self.rangeloops:
+                    it = ast.copy_location(ast.Call(func=ast.copy_location(ast.Name(id="__srcb_range", ctx=ast.Load()), s.iter),
+                                                    args=s.iter.args, keywords=[]), s.iter)
+                    s2 = ast.copy_location(ast.For(target=s.target, iter=it, body=s.body, orelse=s.orelse), s)
+                    s2.end_lineno = s.end_lineno
+                    self.loopno[id(s2)] = self.loopno[id(s)]
+                    self.rangeloops[id(s)] = s2
+                return Fn.loop(self, self.rangeloops[id(s)], rest, env, k, after)
+        return Fn.loop(self, s, rest, env, k, after)
+
+    # ---- IR
+    @staticmethod
+    def children(ir):
+        if ir[0] == "tryb":
+            return [ir[2], ir[3]] + ([ir[7]] if ir[7] is not None else []) + [ir[8]]
+        return Fn.children(ir)
+
+    def effects(self, ir):
+        return ir[0] == "tryb" or Fn.effects(self, ir)
+
+    def render(self, ir, ind, oc, optional=False):
+        if ir[0] != "tryb":
+            return Fn.render(self, ir, ind, oc, optional)
+        _, excs, body, hand, hn, rn, pat, retleaf, rest = ir
+        i2 = ind + "  "
+        head = "py_try [%s]\n%s  (%s)\n%s  (%s);\n" % ("; ".join(excs), ind, self.render(body, ind + "   ", True, False), ind,
+                                                   self.render(hand, ind + "   ", True, False))
+        if retleaf is None:
+            return "do %s <- %s%s%s" % (pat, head, ind, self.render(rest, ind, oc, optional))
+        sub = lambda x: self.render(x, i2, oc, optional) if x[0] in ("ret", "raise", "jret", "lret") else "(" + self.render(x, i2 + " ", oc, optional) + ")"
+        return "do %s <- %smatch %s with\n%s| inl %s => %s\n%s| inr %s =>\n%s%s\n%send" % (
+            hn, head + ind, hn, ind, rn, self.render(retleaf, i2, oc, optional), ind, pat, i2, sub(rest), ind)
+
+
+UNIT_FNCLASS.update({u[1]: FnB for u in SRCB_UNITS})
+
+
 BY_MODULE = {}      # dotted module name -> the first translator made for its file (filled by generate())
 
 
@@ -1945,6 +2502,7 @@ class Translator:
         self.specs = WHITELIST + FUNCS if specs is None else specs
         self.done, self.order, self.failed, self.active, self.consts = {}, [], {}, [], {}
         BY_MODULE.setdefault(re.sub(r"(/__init__)?\.py$", "", fn).replace("/", "."), self)
+        BY_OUT[out] = self
         CURFILE.append(fn)
         try:
             self.mod = Module(fn)
@@ -2079,7 +2637,7 @@ class Translator:
             self.active.append(key)
             CURFILE.append(self.fn)
             try:
-                d = Fn(self, recv, name, spec[0][2])
+                d = UNIT_FNCLASS.get(self.out, Fn)(self, recv, name, spec[0][2])
                 d.body_text = d.text()          # also resolves every list type: fail here, scoped to this definition
             except Untranslatable as e:
                 self.failed[key] = str(e)
